@@ -20,6 +20,7 @@ Inductive stop :=
 | SClose (err : Z)
 | SReopen (crash : Z) (listing : list (Z * (Z * Z * Z * Z))) (err : Z)
 | SObserve (segs : list (Z * Z)) (nmem : Z)
+| SHolders (gap : Z)     (* during the preceding Flush: min over its hook points of (#queued memtables + #registered segments) minus the value at its start *)
 | SInFlight (compact : bool).
 
 Definition pfst4 : P (Z * Z * Z * Z) := a <- pz ;; b <- pz ;; c <- pz ;; d <- pz ;; ret (a, b, c, d).
@@ -37,6 +38,7 @@ Definition pstop : P stop :=
   else if t =? 8 then (e <- pz ;; ret (SClose e))
   else if t =? 9 then (c <- pz ;; l <- plist (ppair pz pfst4) ;; e <- pz ;; ret (SReopen c l e))
   else if t =? 10 then (sg <- ppairs ;; n <- pz ;; ret (SObserve sg n))
+  else if t =? 12 then (g <- pz ;; ret (SHolders g))
   else if t =? 11 then (c <- pbool ;; ret (SInFlight c))
   else (fun _ => None).
 
@@ -196,6 +198,10 @@ Definition ststep (h : sth) (o : stop) : sth + list Z :=
              sh_known := remember_segs h s'; sh_cfg := sh_cfg h; sh_session := sh_session h;
              sh_spec_session := sh_spec_session h; sh_crashed := sh_crashed h; sh_corrupt := sh_corrupt h;
              sh_i := sh_i h + 1; sh_weak := sh_weak h; sh_found := sh_found h |}
+  | SHolders gap =>
+      (* no instant of a flush at which an acknowledged memtable is neither queued nor registered as a
+         segment (a concurrent search would miss its documents; a failing flush would lose them) *)
+      if gap <? 0 then inr (v_violation [sh_i h; -12; gap]) else inl (upd_model h s)
   | SObserve segs nmem =>
       let ms := map (fun g => (sg_id g, if sg_cached g then 1 else 0)) (s_segs s) in
       if plist_eqb ms segs && (nmem =? Z.of_nat (length (s_queue s))) then inl (upd_model h s)
